@@ -288,6 +288,11 @@ func mkErr(kind string, ctx context.Context) error {
 		return fmt.Errorf("outer: %w", status.Error(codes.PermissionDenied, "inner denied"))
 	case "aborted-long":
 		return status.Error(codes.Aborted, strings.Repeat("long message é ", 20))
+	case "status-canceled":
+		// the handler itself reports the code a client-side cancel would give (e.g. passing on an upstream failure)
+		return status.Error(codes.Canceled, "upstream call was cancelled")
+	case "status-deadline":
+		return status.Error(codes.DeadlineExceeded, "upstream call timed out")
 	case "ctx-err":
 		if e := ctx.Err(); e != nil {
 			return e
